@@ -226,6 +226,14 @@ impl<S: Storage> Builder<S> {
                     use std::ops::Bound;
                     let mut egraph = egg::EGraph::new(ExprAnalysis::default());
                     let root = egraph.add_expr(&self.recexpr(filter));
+                    // A contradictory key range (e.g. `k > 1 and k < 0`) is folded to the
+                    // constant `false` by the optimizer: nothing qualifies.
+                    if matches!(
+                        egraph[root].data.constant,
+                        Some(crate::types::DataValue::Bool(false) | crate::types::DataValue::Null)
+                    ) {
+                        return self.spawn(id, futures::stream::empty().boxed());
+                    }
                     let expr: Option<crate::storage::KeyRange> =
                         egraph[root].data.range.clone().map(|(_, r)| r);
                     if matches!(
